@@ -10,8 +10,8 @@ pub const META_C15: Meta = Meta {
     level: "exploration",
     rule: "Four monitors per case (profiles `flow`+`expand`+`virtual`, 0-5 declare statements, some programs using random with the seed pinned through the hook, ~40% static programs): (1) re-parse: the same text is parsed and bound 6 times in one process (fresh HashMap RandomState each time) - all TestCase values must be ==, with identical `signals` order and identical Display; a digest of (Display, signal order, row stream) is also written per case and the orchestrator compares the digests produced by two separate processes (the dev-profile and release-profile shards run the same cases); (2) re-iterate: 3 iterations of one &TestCase with fresh devices replaying one script give identical item streams and vars(); (2b) abandon: an iterator is dropped after a random number of steps (possibly inside a C/X expansion), the next full iteration must equal the first; (3) interleave: 2-4 iterators over one &TestCase, each with its own device, next() interleaved by round-robin / sequential / PRNG schedules - every stream equals the solo stream; (4) static: try_iter_static().is_ok() iff the model reads no outputs (scope rule of C11), and then its (inputs incl. changed, expected, line) stream equals the projection of every dynamic run against 4 devices (empty layout, all outputs unique numbers, all Z, permuted subset with X), error items at the same index. Non-trivial = >= 2 virtual signals, or >= 2 interleaved iterators with >= 3 rows each under a non-sequential schedule, or a static program with a C/X expansion.",
     assumptions: &["identical device scripts give identical answers (pure function of call index and signal)"],
-    quick_cases: 10_000,
-    thorough_cases: 300_000,
+    quick_cases: 40000,
+    thorough_cases: 500000,
     floor: 300,
 };
 
